@@ -324,6 +324,13 @@ class _Ctx:
             if isinstance(n, ast.BoolOp):
                 walk(n.values[0])
                 return
+            if isinstance(n, ast.Call) and isinstance(n.func, ast.Name) and n.func.id in ("list", "tuple") and len(n.args) == 1 and not n.keywords and n is not e \
+                    and isinstance(n.args[0], ast.Call) and self.generator_def(n.args[0]) is not None:
+                # ``list(_gen(..))``: taken out as a whole (the generator call stays its argument, so that the collection is spelled as the generator's loop)
+                for a_ in list(n.args[0].args) + [k_.value for k_ in n.args[0].keywords]:
+                    walk(a_)
+                out.append(n)
+                return
             for ch in ast.iter_child_nodes(n):
                 walk(ch)
             if isinstance(n, ast.Call) and self.must_run_in_place(n):
